@@ -129,8 +129,11 @@ def transpose_struct_list_array(array: pa.StructArray, validate: bool = True) ->
 
     # Since we know that all lists have the same length, we can use the first list to get offsets
     offsets = array.field(0).offsets
+    # The value buffers of the fields may have different lengths (e.g. a field which is a slice of
+    # a larger array), while StructArray requires equal lengths: cut them at the last offset.
+    values_length = offsets[-1].as_py()
     struct_flat_array = pa.StructArray.from_arrays(
-        [field.values for field in array.flatten()],
+        [field.values.slice(0, values_length) for field in array.flatten()],
         names=array.type.names,
     )
     return pa.ListArray.from_arrays(offsets, struct_flat_array)
